@@ -890,7 +890,8 @@ async fn run_tcp_client(_idx: usize, c: TcpClient, sh: Arc<Shared>) {
     let local = tcp.local_addr().ok();
     let stream: BoxStream = match &c.tls {
         None => Box::new(tcp),
-        Some(t) => match tlsutil::client_connect(t, tcp).await {
+        // a TLS handshake that never completes (a proxy that stopped answering) is an observation, not a reason to wait forever
+        Some(t) => match tokio::time::timeout(Duration::from_secs(20), tlsutil::client_connect(t, tcp)).await.unwrap_or_else(|_| Err("handshake timeout after 20 s".into())) {
             Ok(s) => Box::new(s),
             Err(e) => {
                 sh.record(json!({"actor": c.id, "conn": c.id, "sim_id": sim_id, "connect": format!("tlserr:{}", e), "t0": t0, "s0": s0, "t1": sim::now_us(), "s1": sim::stamp()}));
